@@ -1,57 +1,83 @@
 import Sess.Basic
 namespace Sess
 
-/-- what a session object may have published: nothing while it is open, and once it has ended at most the bytes it
-    had accepted when it ended (which no later call changes) -/
-def Inv (s : S) : Prop := (s.ended = false → s.published = []) ∧ (∀ p ∈ s.published, p = s.written)
+/-- what a session object may have published: nothing while it is open; once it has ended at most the bytes it had
+    accepted when it ended (which no later call changes), and for a pinned session only the pinned content -/
+def Inv (s : S) : Prop :=
+  (s.ended = false → s.published = []) ∧ (∀ p ∈ s.published, p = s.written ∧ (s.pin = none ∨ s.pin = some p))
 
-theorem inv_init : Inv {} := by simp [Inv]
+theorem inv_init (pin : Option (List Nat)) : Inv { pin := pin } := by simp [Inv]
 
-theorem publish_inv (s : S) (he : s.ended = true) (h : Inv s) : Inv (publish s) := by
+theorem pinOk_spec (s : S) (h : pinOk s = true) : s.pin = none ∨ s.pin = some s.written := by
+  unfold pinOk at h
+  cases hp : s.pin with
+  | none => exact Or.inl rfl
+  | some p => rw [hp] at h; simp at h; exact Or.inr (by rw [h])
+
+theorem publish_inv (s : S) (he : s.ended = true) (hp : pinOk s = true) (h : Inv s) : Inv (publish s) := by
   unfold publish
   split
   · exact h
   · refine ⟨fun h0 => by simp [he] at h0, ?_⟩
-    intro p hp
-    simp only [List.mem_append, List.mem_singleton] at hp
-    rcases hp with hp | hp
-    · exact h.2 p hp
-    · exact hp
+    intro p hpm
+    simp only [List.mem_append, List.mem_singleton] at hpm
+    rcases hpm with hpm | hpm
+    · exact h.2 p hpm
+    · subst hpm; exact ⟨rfl, pinOk_spec s hp⟩
+
+/-- changing the flags of a state that has published nothing keeps the invariant when the result has ended or published nothing -/
+theorem inv_of_nil (s t : S) (hpub : t.published = []) : Inv t := by
+  refine ⟨fun _ => hpub, ?_⟩
+  intro p hp; rw [hpub] at hp; simp at hp
+
+theorem closeRaw_inv (dir : Bool) (s : S) (h : Inv s) : Inv (closeRaw dir s).1 := by
+  unfold closeRaw
+  cases dir
+  · -- memory store
+    simp only [Bool.false_eq_true, ↓reduceIte]
+    by_cases hp : pinOk s = true
+    · simp only [hp, Bool.not_true, Bool.false_eq_true, ↓reduceIte]
+      apply publish_inv _ rfl (by simpa [pinOk] using hp)
+      refine ⟨fun h0 => by simp at h0, ?_⟩
+      intro p hpm; exact h.2 p hpm
+    · simp only [hp, Bool.not_false, ↓reduceIte]; exact h
+  · -- directory store
+    simp only [↓reduceIte]
+    by_cases hf : s.fclosed = true
+    · simp only [hf, ↓reduceIte]; exact h
+    · simp only [hf, Bool.false_eq_true, ↓reduceIte]
+      by_cases hp : pinOk s = true
+      · simp only [hp, Bool.not_true, Bool.false_eq_true, ↓reduceIte]
+        apply publish_inv _ rfl (by simpa [pinOk] using hp)
+        refine ⟨fun h0 => by simp at h0, ?_⟩
+        intro p hpm; exact h.2 p hpm
+      · simp only [hp, Bool.not_false, ↓reduceIte]
+        exact ⟨fun h0 => h.1 h0, fun p hpm => h.2 p hpm⟩
 
 theorem step_inv (dir : Bool) (s : S) (o : Op) (h : Inv s) : Inv (step dir s o).1 := by
   cases o with
   | w c =>
     simp only [step]
-    by_cases he : s.ended = true
-    · simp [he]; exact h
-    · have he' : s.ended = false := by simpa using he
-      simp only [he', Bool.false_eq_true, ↓reduceIte]
-      refine ⟨fun _ => h.1 he', ?_⟩
-      intro p hp
-      rw [h.1 he'] at hp; simp at hp
+    split
+    · exact h
+    · rename_i hc
+      have he' : s.ended = false := by
+        cases hE : s.ended with
+        | false => rfl
+        | true => exact absurd (Or.inl hE) hc
+      exact inv_of_nil s _ (h.1 he')
   | vbad => exact h
+  | vgood => exact h
   | close =>
     simp only [step]
-    by_cases he : s.ended = true
-    · simp only [he, ↓reduceIte]
-      cases dir
-      · exact publish_inv s he h
-      · exact h
-    · have he' : s.ended = false := by simpa using he
-      simp only [he', Bool.false_eq_true, ↓reduceIte]
-      apply publish_inv _ rfl
-      refine ⟨fun h0 => by simp at h0, ?_⟩
-      intro p hp
-      simp only [h.1 he'] at hp; simp at hp
+    split
+    · exact closeRaw_inv dir s h
+    · exact h
+  | closeRaw => exact closeRaw_inv dir s h
   | cancel =>
     simp only [step]
-    by_cases he : s.ended = true
-    · have : ({ s with ended := true } : S) = s := by cases s; simp_all
-      rw [this]; exact h
-    · have he' : s.ended = false := by simpa using he
-      refine ⟨fun h0 => by simp at h0, ?_⟩
-      intro p hp
-      simp only [h.1 he'] at hp; simp at hp
+    refine ⟨fun h0 => by simp at h0, ?_⟩
+    intro p hpm; exact h.2 p hpm
 
 theorem run_fst_cons (dir : Bool) (s : S) (o : Op) (os : List Op) :
     (run dir s (o :: os)).1 = (run dir (step dir s o).1 os).1 := by
@@ -62,19 +88,32 @@ theorem run_inv (dir : Bool) (os : List Op) : ∀ s, Inv s → Inv (run dir s os
   | nil => intro s h; simpa [run] using h
   | cons o os ih => intro s h; rw [run_fst_cons]; exact ih _ (step_inv dir s o h)
 
-/-- an ended session accepts nothing more: the accepted bytes are final -/
+theorem publish_fields (s : S) :
+    (publish s).ended = s.ended ∧ (publish s).written = s.written ∧ (publish s).pin = s.pin ∧ (publish s).fclosed = s.fclosed := by
+  unfold publish; split <;> simp
+
+/-- an ended session accepts nothing more and stays ended: the accepted bytes are final -/
 theorem step_ended (dir : Bool) (s : S) (o : Op) (he : s.ended = true) :
     (step dir s o).1.ended = true ∧ (step dir s o).1.written = s.written := by
-  have hpub : (publish s).ended = true ∧ (publish s).written = s.written := by
-    unfold publish; split <;> simp [he]
+  have hcr : (closeRaw dir s).1.ended = true ∧ (closeRaw dir s).1.written = s.written := by
+    unfold closeRaw
+    cases dir <;> simp only [Bool.false_eq_true, ↓reduceIte]
+    · split
+      · exact ⟨he, rfl⟩
+      · have := publish_fields { s with ended := true }; exact ⟨this.1, this.2.1⟩
+    · split
+      · exact ⟨he, rfl⟩
+      · split
+        · exact ⟨he, rfl⟩
+        · have := publish_fields { s with fclosed := true, ended := true }; exact ⟨this.1, this.2.1⟩
   cases o with
   | w c => simp [step, he]
   | vbad => simp [step, he]
-  | close =>
-    simp only [step, he, ↓reduceIte]
-    cases dir
-    · exact hpub
-    · simp [he]
+  | vgood => simp [step, he]
+  | close => simp only [step]; split
+             · exact hcr
+             · exact ⟨he, rfl⟩
+  | closeRaw => exact hcr
   | cancel => simp [step]
 
 theorem run_ended (dir : Bool) (os : List Op) : ∀ s, s.ended = true →
@@ -88,25 +127,64 @@ theorem run_ended (dir : Bool) (os : List Op) : ∀ s, s.ended = true →
     have h2 := ih _ h1.1
     exact ⟨h2.1, h2.2.trans h1.2⟩
 
+theorem publish_mono (t : S) (p : List Nat) (ht : p ∈ t.published) : p ∈ (publish t).published := by
+  unfold publish; split
+  · exact ht
+  · exact List.mem_append_left _ ht
+
+theorem closeRaw_mono (dir : Bool) (s : S) (p : List Nat) (hp : p ∈ s.published) : p ∈ (closeRaw dir s).1.published := by
+  unfold closeRaw
+  cases dir <;> simp only [Bool.false_eq_true, ↓reduceIte]
+  · split
+    · exact hp
+    · exact publish_mono _ p hp
+  · split
+    · exact hp
+    · split
+      · exact hp
+      · exact publish_mono _ p hp
+
 /-- published contents are never withdrawn by the object -/
 theorem step_published_mono (dir : Bool) (s : S) (o : Op) (p : List Nat) (hp : p ∈ s.published) :
     p ∈ (step dir s o).1.published := by
   cases o <;> simp only [step]
   · split <;> exact hp
   · exact hp
-  · have hpub : ∀ t : S, p ∈ t.published → p ∈ (publish t).published := by
-      intro t ht; unfold publish; split
-      · exact ht
-      · exact List.mem_append_left _ ht
-    split
-    · cases dir
-      · exact hpub s hp
-      · exact hp
-    · exact hpub _ hp
+  · exact hp
+  · split
+    · exact closeRaw_mono dir s p hp
+    · exact hp
+  · exact closeRaw_mono dir s p hp
   · exact hp
 
-/-- a write is refused exactly when the session has ended -/
-theorem write_refused_iff (dir : Bool) (s : S) (c : Nat) : (step dir s (.w c)).2 = .err ↔ s.ended = true := by
+/-- a write is refused exactly when the session has ended or (directory store) its temporary file is closed -/
+theorem write_refused_iff (dir : Bool) (s : S) (c : Nat) :
+    (step dir s (.w c)).2 = .err ↔ (s.ended = true ∨ (dir = true ∧ s.fclosed = true)) := by
   simp only [step]; split <;> simp_all
+
+/-- the pin of a session never changes -/
+theorem step_pin (dir : Bool) (s : S) (o : Op) : (step dir s o).1.pin = s.pin := by
+  have hcr : (closeRaw dir s).1.pin = s.pin := by
+    unfold closeRaw
+    cases dir <;> simp only [Bool.false_eq_true, ↓reduceIte]
+    · split
+      · rfl
+      · exact (publish_fields _).2.2.1
+    · split
+      · rfl
+      · split
+        · rfl
+        · exact (publish_fields _).2.2.1
+  cases o <;> simp only [step]
+  · split <;> rfl
+  · split
+    · exact hcr
+    · rfl
+  · exact hcr
+
+theorem run_pin (dir : Bool) (os : List Op) : ∀ s, (run dir s os).1.pin = s.pin := by
+  induction os with
+  | nil => intro s; simp [run]
+  | cons o os ih => intro s; rw [run_fst_cons, ih, step_pin]
 
 end Sess
